@@ -203,9 +203,16 @@ def checked_subst_history(ctx, h, steps, kinds):
     """Random history on a used manager (collections, re-used node numbers, swaps); every
     quantify / let result is compared with the truth-table semantics."""
     rng = ctx.rng
+    # a small per-history menu of argument shapes, so that the same shape is asked again after
+    # collections have freed and re-used node numbers (stale memo entries would then be hit)
+    names0 = h.names()
+    menu_q = [[v for v in names0 if rng.random() < 0.5] or names0[:1] for _ in range(2)]
+    menu_c = [{v: rng.randint(0, 1) for v in names0 if rng.random() < 0.5} or {names0[0]: 1} for _ in range(2)]
+    menu_r = [{v: rng.choice(names0) for v in names0 if rng.random() < 0.5} or {names0[0]: names0[-1]}
+              for _ in range(2)]
     for _ in range(steps):
         names = h.names()
-        if not names or len(names) > 6:
+        if not names or len(names) > 6 or set(names) != set(names0):
             h.step(dict(var=3, apply=5, hold=3, gc=1))
             continue
         sp = Space(names)
@@ -216,18 +223,20 @@ def checked_subst_history(ctx, h, steps, kinds):
             u = h.pick()
             tu = tt.of(u)
             if kind == 'quantify':
-                q = [v for v in names if rng.random() < 0.4]
+                q = rng.choice(menu_q) if rng.random() < 0.7 else [v for v in names if rng.random() < 0.4]
                 fa = rng.randint(0, 1)
                 ans = h.s.op(0, 'quantify', u, ','.join('n:' + v for v in q), fa)
                 want = sp.forall(tu, q) if fa else sp.exists(tu, q)
             elif kind == 'cofactor':
-                d = {v: rng.randint(0, 1) for v in names if rng.random() < 0.4} or {names[0]: 1}
+                d = rng.choice(menu_c) if rng.random() < 0.7 else (
+                    {v: rng.randint(0, 1) for v in names if rng.random() < 0.4} or {names[0]: 1})
                 ans = h.s.op(0, 'let_b', u, ','.join(f'n:{k}={v}' for k, v in d.items()))
                 want = tu
                 for k, v in d.items():
                     want = sp.cof(want, k, v)
             elif kind == 'rename':
-                d = {v: rng.choice(names) for v in names if rng.random() < 0.5} or {names[0]: names[-1]}
+                d = rng.choice(menu_r) if rng.random() < 0.7 else (
+                    {v: rng.choice(names) for v in names if rng.random() < 0.5} or {names[0]: names[-1]})
                 ans = h.s.op(0, 'let_n', u, ','.join(f'{k}={v}' for k, v in d.items()))
                 want = sp.rename(tu, d)
             else:
@@ -243,7 +252,7 @@ def checked_subst_history(ctx, h, steps, kinds):
                     op=kind, lines=list(h.s.lines), got=ans, tags=dict(call=kind + '-history')))
                 return
         else:
-            h.step(dict(var=4, apply=6, ite=1, hold=4, release=3, gc=4, swap=1, order=1))
+            h.step(dict(var=4, apply=6, ite=1, hold=3, release=4, gc=6, swap=0.5, order=0.5))
             h.prune()
 
 
